@@ -442,7 +442,7 @@ func main() {
 		{"valid/validfn.go", "Dir"}}))
 	writeIfChanged(filepath.Join(outDir, "SourceFnsIn.v"), miniGo(fnFiles, [][2]string{{"valid/validfn.go", "In"}, {"valid/validfn.go", "Include"},
 		{"valid/validfn.go", "in"}}))
-	writeIfChanged(filepath.Join(outDir, "SourceFnsInts.v"), miniGo(fnFiles, [][2]string{{"valid/validfn.go", "Ints"}, {"valid/validfn.go", "Unique"}, {"valid/validfn.go", "Datetime"}}))
+	writeIfChanged(filepath.Join(outDir, "SourceFnsInts.v"), miniGo(fnFiles, [][2]string{{"valid/validfn.go", "Ints"}, {"valid/validfn.go", "Unique"}, {"valid/validfn.go", "Datetime"}, {"valid/validfn.go", "Re"}}))
 	tagF := parseFile(filepath.Join(repo, "file/handletag.go"))
 	fnFiles["file/handletag.go"] = tagF
 	writeIfChanged(filepath.Join(outDir, "SourceFnsTags.v"), miniGo(fnFiles, [][2]string{{"file/handletag.go", "tagItems_override"}, {"file/handletag.go", "tagItems_format"}}))
